@@ -287,10 +287,10 @@ def run_driver(exe, args, script, timeout=600, env=None):
             pass
     try:
         p = subprocess.run([exe] + args, input=script, stdout=subprocess.PIPE, stderr=subprocess.PIPE,
-                           text=True, timeout=timeout, env=e, preexec_fn=_limits)
+                           text=True, errors="replace", timeout=timeout, env=e, preexec_fn=_limits)   # (a run gone wrong may print arbitrary bytes)
         return p.returncode, p.stdout, p.stderr
     except subprocess.TimeoutExpired as ex:
-        return -999, (ex.stdout or b"").decode() if isinstance(ex.stdout, bytes) else (ex.stdout or ""), "timeout"
+        return -999, (ex.stdout or b"").decode(errors="replace") if isinstance(ex.stdout, bytes) else (ex.stdout or ""), "timeout"
 
 
 def split_cases(out):
@@ -419,7 +419,7 @@ def _run_shard(args):
         assert len(sb) == len(CANON_ROOT), sb
         script = script.replace("@ROOT@", hexs(sb)).replace(hexs(CANON_ROOT)[1:], hexs(sb)[1:])
     try:
-        rc1, out1, err1 = run_driver(exe_impl, a_impl, script, timeout=extra.get("timeout", 900))
+        rc1, out1, err1 = run_driver(exe_impl, a_impl, script, timeout=extra.get("timeout", 900), env=extra.get("env"))
         rc2, out2, err2 = (0, "", "")
         if exe_model:
             rc2, out2, err2 = run_driver(exe_model, [driver], script, timeout=extra.get("timeout", 900))
@@ -432,7 +432,7 @@ def _run_shard(args):
     return rc1, out1, err1[-2000:], rc2, out2, err2[-2000:]
 
 
-def correspond(exe_impl, exe_model, driver, cases, sandbox=False, shards=None, timeout=900):
+def correspond(exe_impl, exe_model, driver, cases, sandbox=False, shards=None, timeout=900, env=None):
     """cases: list of (case_id, script_text).  Runs implementation and model on
     the same scripts (sharded over the cores) and returns
     (impl: {id: lines}, model: {id: lines}, problems: [str])."""
@@ -443,7 +443,7 @@ def correspond(exe_impl, exe_model, driver, cases, sandbox=False, shards=None, t
         if not ch:
             continue
         script = "".join("case %s\n%s" % (cid, txt if txt.endswith("\n") else txt + "\n") for cid, txt in ch)
-        jobs.append((exe_impl, exe_model, driver, {"sandbox": sandbox, "timeout": timeout}, script))
+        jobs.append((exe_impl, exe_model, driver, {"sandbox": sandbox, "timeout": timeout, "env": env}, script))
     results = parallel_map(_run_shard, jobs)
     impl, model, problems = {}, {}, []
     for (rc1, out1, err1, rc2, out2, err2) in results:
